@@ -195,20 +195,17 @@ impl Node {
 
         // Step 2. Let selectedcontent be the first selectedcontent element descendant of select in tree order
         // if any such element exists; otherwise return null.
-        // FIXME: This does not visit the nodes in tree order
-        let mut remaining = VecDeque::default();
-        remaining.extend(self.children.borrow().iter().cloned());
+        // Depth-first with an explicit stack, so that nodes are visited in tree order.
+        let mut remaining: Vec<Rc<Self>> = self.children.borrow().iter().rev().cloned().collect();
         let mut selectedcontent = None;
-        while let Some(node) = remaining.pop_front() {
-            remaining.extend(node.children.borrow().iter().cloned());
-
-            let NodeData::Element { name, .. } = &self.data else {
-                continue;
-            };
-            if name.local_name() == &local_name!("selectedcontent") {
-                selectedcontent = Some(node);
-                break;
+        while let Some(node) = remaining.pop() {
+            if let NodeData::Element { name, .. } = &node.data {
+                if name.local_name() == &local_name!("selectedcontent") {
+                    selectedcontent = Some(node);
+                    break;
+                }
             }
+            remaining.extend(node.children.borrow().iter().rev().cloned());
         }
         let selectedcontent = selectedcontent?;
 
@@ -228,32 +225,58 @@ impl Node {
         // Step 2. For each child of option's children:
         for child in self.children.borrow().iter() {
             // Step 2.1 Let childClone be the result of running clone given child with subtree set to true.
-            let child_clone = child.clone_with_subtree();
+            let child_clone = child.clone_with_subtree(Some(Rc::downgrade(&selectedcontent)));
 
             // Step 2.2 Append childClone to documentFragment.
             document_fragment.push(child_clone);
         }
 
         // Step 3. Replace all with documentFragment within selectedcontent.
-        *selectedcontent.children.borrow_mut() = document_fragment;
+        let old_children = mem::replace(
+            &mut *selectedcontent.children.borrow_mut(),
+            document_fragment,
+        );
+        for old_child in old_children {
+            old_child.parent.set(None);
+        }
     }
 
-    /// Clones the node and all of its descendants, returning a handle to the new subtree.
+    /// Clones the node and all of its descendants, returning a handle to the new subtree,
+    /// whose root gets the given parent link.
     ///
-    /// This function will run into infinite recursion when the DOM tree contains cycles and it makes
-    /// no attempts to guard against that.
-    fn clone_with_subtree(&self) -> Rc<Self> {
-        let children = self
+    /// Iterative, so that deeply nested subtrees do not overflow the stack. This function will
+    /// not terminate when the DOM tree contains cycles and it makes no attempts to guard
+    /// against that.
+    fn clone_with_subtree(&self, parent: Option<Weak<Self>>) -> Rc<Self> {
+        let clone_node = |node: &Self, parent: Option<Weak<Self>>| {
+            Rc::new(Self {
+                parent: Cell::new(parent),
+                data: node.data.clone(),
+                children: RefCell::new(Vec::new()),
+            })
+        };
+        let root = clone_node(self, parent);
+        // Pairs of (original node, its clone) whose children are yet to be cloned.
+        let mut pending: Vec<(Rc<Self>, Rc<Self>)> = self
             .children
             .borrow()
             .iter()
-            .map(|child| child.clone_with_subtree())
+            .rev()
+            .map(|child| (child.clone(), root.clone()))
             .collect();
-        Rc::new(Self {
-            parent: Cell::new(self.parent()),
-            data: self.data.clone(),
-            children: RefCell::new(children),
-        })
+        while let Some((original, clone_parent)) = pending.pop() {
+            let clone = clone_node(&original, Some(Rc::downgrade(&clone_parent)));
+            clone_parent.children.borrow_mut().push(clone.clone());
+            pending.extend(
+                original
+                    .children
+                    .borrow()
+                    .iter()
+                    .rev()
+                    .map(|child| (child.clone(), clone.clone())),
+            );
+        }
+        root
     }
 }
 
